@@ -22,7 +22,7 @@ enum Kind : int {
   K_THREAD_START = 26, K_THREAD_END = 27, K_BLOCKED = 28, K_KIND_MAX = 32
 };
 
-enum Strategy : int { ST_SEQUENTIAL = 0, ST_PB = 1, ST_PCT = 2, ST_RW = 3, ST_RR = 4, ST_CONFLICT = 5, ST_SWEEP2 = 6 };
+enum Strategy : int { ST_SEQUENTIAL = 0, ST_PB = 1, ST_PCT = 2, ST_RW = 3, ST_RR = 4, ST_CONFLICT = 5, ST_SWEEP2 = 6, ST_LOCKSTEP = 7 };
 
 struct Block {
   uintptr_t addr = 0;
